@@ -7,7 +7,7 @@ import hashlib, json, os, re, subprocess, sys, time, glob, shutil
 VERIF = os.path.dirname(os.path.dirname(os.path.abspath(__file__)))
 REPO = os.environ.get('AITB_REPO', '/repo')
 LEAN = os.path.join(VERIF, 'lean')
-CACHE = os.path.join(VERIF, '.cache')
+CACHE = os.environ.get('AITB_CACHE') or os.path.join(VERIF, '.cache')
 NPROC = os.cpu_count() or 4
 GUARD = 'AITB_VERIF'
 
@@ -156,7 +156,7 @@ def include_hash():
         dirs.sort()
         for f in sorted(files):
             p = os.path.join(root, f)
-            h.update(p.encode()); h.update(file_bytes(p))
+            h.update(os.path.relpath(p, REPO).encode()); h.update(file_bytes(p))
     return h.hexdigest()[:24]
 
 
@@ -168,7 +168,7 @@ def build_lib(extra_flags=(), log=None):
     objdir = os.path.join(CACHE, 'obj'); os.makedirs(objdir, exist_ok=True)
     jobs, objs = [], []
     for s in repo_sources():
-        key = sha(' '.join(flags), ih, os.path.relpath(s, REPO), file_bytes(s))
+        key = sha(' '.join(flags).replace(REPO, '$REPO'), ih, os.path.relpath(s, REPO), file_bytes(s))
         o = os.path.join(objdir, key + '.o')
         objs.append(o)
         if not os.path.exists(o):
@@ -221,7 +221,7 @@ def build_harness(src, lib, extra_flags=(), extra_srcs=()):
     """Compile a harness against the library. Returns (binary or None, log)."""
     srcp = os.path.join(VERIF, src)
     deps = [file_bytes(srcp)] + [file_bytes(p) for p in sorted(glob.glob(os.path.join(VERIF, 'harness', 'common', '*')))]
-    key = sha(' '.join(CXXFLAGS + list(extra_flags)), include_hash(), os.path.basename(lib) if lib else '', *deps)
+    key = sha(' '.join(CXXFLAGS + list(extra_flags)).replace(REPO, '$REPO'), include_hash(), os.path.basename(lib) if lib else '', *deps)
     bindir = os.path.join(CACHE, 'bin'); os.makedirs(bindir, exist_ok=True)
     exe = os.path.join(bindir, os.path.splitext(os.path.basename(src))[0] + '-' + key)
     if os.path.exists(exe):
